@@ -140,6 +140,17 @@ CONTROLS = [
         '        Err(Error::ReadUtf8(PathBuf::from(path.as_ref())))\n    } else {', '        Err(Error::ReadUtf8(PathBuf::from(path.as_ref())))\n    } else if s.is_empty() {\n        Ok((PreprocessedText::new(), HashMap::new()))\n    } else {', 1)]),
     ('x9-level-counted-in-file-entry', 'X9', 'syn', 'preprocess_inner->preprocess_str:include_depth:inc-in-wrapper', [(PPF,
         '            strip_comments,\n            resolve_depth,\n            include_depth,\n        )\n    }\n}', '            strip_comments,\n            resolve_depth,\n            include_depth + 1,\n        )\n    }\n}', 1)]),
+    ('g1-parsed-trivia-cleared', 'G1', 'syn', 'fixed_point_number:parse-result', [(PARSER + 'expressions/numbers.rs',
+        '    let (s, c) = unsigned_number(s)?;\n    Ok((s, FixedPointNumber { nodes: (a, b, c) }))', '    let (s, mut c) = unsigned_number(s)?;\n    c.nodes.1.clear();\n    Ok((s, FixedPointNumber { nodes: (a, b, c) }))', 1)]),
+    ('g12-time-literal-number-with-trivia', 'G12', 'syn', 'time_literal_fixed_point:trivia-inside-compound-token', [(PARSER + 'expressions/primaries.rs',
+        '    let (s, a) = fixed_point_number_exact(s)?;', '    let (s, a) = fixed_point_number(s)?;', 1)]),
+    ('x1-bodyless-macro-continue', 'X1', 'syn', 'Enter(TextMacroUsage):early-exit-before-copy', [(PPF,
+        '                    ret.push(&text, origin);\n                    defines = new_defines;\n                }\n', '                    ret.push(&text, origin);\n                    defines = new_defines;\n                } else {\n                    continue;\n                }\n', 1)]),
+    ('g22-line-comment-stops-at-cr', 'G22', 'syn', 'one_line_comment:partial-closer-ends-body', [(PARSER + 'general/comments.rs',
+        '    let (s, b) = opt(is_not("\\n"))(s)?;\n    let (s, c) = opt(tag("\\n"))(s)?;', '    let (s, b) = opt(is_not("\\r\\n"))(s)?;\n    let (s, c) = opt(line_ending)(s)?;', 1)]),
+    ('t4-unwrap-locate-no-break', 'T4', 'syn', 'unwrap_locate:first-match', [(API,
+        '        let unwrap = || {\n            for x in $n {\n                match x {\n                    $crate::RefNode::Locate(x) => return Some(x),\n                    _ => (),\n                }\n            }\n            None\n        };\n        unwrap()\n',
+        '        let mut ret = None;\n        for x in $n {\n            if let $crate::RefNode::Locate(x) = x {\n                ret = Some(x);\n            }\n        }\n        ret\n', 1)]),
     ('x11-include-unguarded', 'X11', 'syn', 'open-unguarded', [(PPF, 'NodeEvent::Enter(RefNode::IncludeCompilerDirective(x)) if !ignore_include => {', 'NodeEvent::Enter(RefNode::IncludeCompilerDirective(x)) => {', 1)]),
     ('x12-search-reversed', 'X12', 'syn', 'search-order', [(PPF, '                    for include_path in include_paths {', '                    for include_path in include_paths.iter().rev() {', 1)]),
     ('p2-utf8-error-without-path', 'P2', 'syn', 'read-error', [(PPF, 'Err(Error::ReadUtf8(PathBuf::from(path.as_ref())))', 'Err(Error::ReadUtf8(PathBuf::new()))', 1)]),
